@@ -504,7 +504,10 @@ pub fn candidates2(t: &Table2, p: &Prep2, which: usize, d: &Def) -> Vec<Cand> {
 
 // ------------------------------------------------------------------ format 1
 
-pub fn candidates1(t: &Table1, font: &AbsFont, which: usize, d: &Def) -> Result<Vec<Cand>, &'static str> {
+/// `quirk`: reproduce the known read-fonts defect (Cmap12::iter_with_limits
+/// never yields U+10FFFF, known finding C08 "Charmap::mappings:missing:U+10FFFF"),
+/// which the library's inverted-set path runs into.
+pub fn candidates1(t: &Table1, font: &AbsFont, which: usize, d: &Def, quirk: bool) -> Result<Vec<Cand>, &'static str> {
     if t.glyph_count != font.num_glyphs as u32 {
         return Err("glyph count mismatch");
     }
@@ -516,7 +519,7 @@ pub fn candidates1(t: &Table1, font: &AbsFont, which: usize, d: &Def) -> Result<
     // entry index -> (code points, feature tags) of the intersection
     let mut entries: BTreeMap<u16, (BTreeSet<u32>, BTreeSet<T4>)> = BTreeMap::new();
     for (cp, gid) in &font.cmap {
-        if !d.cps.contains(*cp) {
+        if !d.cps.contains(*cp) || (quirk && d.cps.inverted && *cp == 0x10FFFF) {
             continue;
         }
         let e = if *gid < t.first_mapped {
@@ -618,11 +621,19 @@ pub fn prepare(font: &AbsFont) -> Prepared {
     Prepared { f2 }
 }
 
-pub fn candidates(font: &AbsFont, prep: &Prepared, d: &Def) -> Result<Vec<Cand>, &'static str> {
+/// Does the known U+10FFFF defect apply to this (font, definition)?
+pub fn tainted(font: &AbsFont, d: &Def) -> bool {
+    d.cps.inverted
+        && d.cps.contains(0x10FFFF)
+        && font.cmap.iter().any(|m| m.0 == 0x10FFFF)
+        && (0..2).any(|w| matches!(font.table(w), Some(AbsTable::F1(_))))
+}
+
+pub fn candidates(font: &AbsFont, prep: &Prepared, d: &Def, quirk: bool) -> Result<Vec<Cand>, &'static str> {
     let mut out = vec![];
     for which in 0..2 {
         match font.table(which) {
-            Some(AbsTable::F1(t)) => out.extend(candidates1(t, font, which, d)?),
+            Some(AbsTable::F1(t)) => out.extend(candidates1(t, font, which, d, quirk)?),
             Some(AbsTable::F2(t)) => match &prep.f2[which] {
                 Some(Ok(p)) => out.extend(candidates2(t, p, which, d)),
                 Some(Err(e)) => return Err(e),
